@@ -3,6 +3,7 @@ point, wrapper integrity, exception hierarchy, bounded reads, loop termination, 
 from __future__ import annotations
 
 import ast
+import re
 import fnmatch
 
 from engine.callgraph import Resolver
@@ -440,6 +441,8 @@ def run(model, rep, tier):
                     else:
                         why = f"the bound `{bname}` that the rewinding parser.seek({tgt}) is tested against is not lowered to `{tgt}` before the next trip: a pointer cycle makes the loop run forever"
                 rep.check(okk, "R-04.6", fq, where(f, sc), why, why, stmt="rewind-bound")
+    from rules.common import token_loops_end_at_eof
+    token_loops_end_at_eof(model, rep, "R-04.6")
     rep.floor("R-04.6", n_loops, 12)
     rep.floor("R-04.6-rewinds", n_seeks, 1)
 
@@ -454,6 +457,16 @@ def run(model, rep, tier):
             want = "if self.continue_on_error: self._add_error(e)" + (" self.parser.seek(rdata_start + rdlen)" if mname == "_get_section" else "") + " else: raise"
             rep.check(t.endswith(want), "R-04.7", f.qualname, where(f, h), "on error: record it (and resynchronise to the next RR) when continue_on_error, otherwise re-raise",
                       "the catch-all handler no longer (records + resynchronises when continue_on_error, else re-raises): errors are swallowed or parsing continues at the wrong offset", stmt="handler-shape")
+    # everything after the header is parsed inside the try whose handler records the error (continue_on_error)
+    rdf = model.func("dns.message._WireReader.read")
+    tries = [t_ for t_ in ast.walk(rdf.node) if isinstance(t_, ast.Try) and any("_add_error" in src(h_) for h_ in t_.handlers)]
+    sect_calls = [c for c in ast.walk(rdf.node) if isinstance(c, ast.Call) and src(c.func) in ("self._get_question", "self._get_section")]
+    rep.floor("R-04.7-section-calls", len(sect_calls), 4)
+    for c in sect_calls:
+        inside = any(any(x is c for s_ in t_.body for x in ast.walk(s_)) for t_ in tries)
+        rep.check(inside, "R-04.7", rdf.qualname, where(rdf, c), f"`{src(c)[:50]}` runs inside the try whose handler records the failure",
+                  f"`{src(c)[:50]}` runs outside the try that records failures: with continue_on_error a malformed {'question' if 'question' in src(c.func) else 'section'} raises out of from_wire "
+                  "instead of being recorded with its offset", stmt="recorded " + src(c)[:40])
     ae = model.func("dns.message._WireReader._add_error")
     rep.check("self.errors.append(MessageError(e, self.parser.current))" in src(ae.node), "R-04.7", ae.qualname, where(ae, ae.node), "errors are recorded with the parser offset", "errors are recorded without the offset", stmt="error-offset")
     fw = model.func("dns.message.from_wire")
@@ -496,6 +509,11 @@ def run(model, rep, tier):
 
 
 WITNESSES = [
+    {"id": "c04-question-outside-recording-try", "rule": "R-04.7", "file": "dns/message.py", "expect": "fires",
+     "old": "        try:\n            self._get_question(MessageSection.QUESTION, qcount)\n            if self.question_only:\n                return self.message\n",
+     "new": "        self._get_question(MessageSection.QUESTION, qcount)\n        if self.question_only:\n            return self.message\n        try:\n"},
+    {"id": "c04-eat-line-spins-at-eof", "rule": "R-04.6", "file": "dns/zonefile.py", "expect": "fires",
+     "old": "            token = self.tok.get()\n            if token.is_eol_or_eof():\n                break", "new": "            token = self.tok.get()\n            if token.is_eol():\n                break"},
     {"id": "c04-truncation-arm-derefs-none", "rule": "R-04.7", "file": "dns/message.py", "expect": "fires",
      "old": "        if (\n            reader.message\n            and (reader.message.flags & dns.flags.TC)\n            and raise_on_truncation\n        ):", "new": "        if raise_on_truncation and (reader.message.flags & dns.flags.TC):"},
     {"id": "c04-twin-truncation-arm-reordered", "rule": "R-04.7", "file": "dns/message.py", "expect": "silent",
